@@ -9,6 +9,70 @@ in the evidence even when it is not a violation.
 """
 
 CATALOGUE = [
+    # ---- a condition that happens to be a constant does not make its branch "always taken" (seed C02-2)
+    ("return-only-under-constant-false-condition", "reject", """
+f = fn(v: [int...]) -> int {
+	if !true {
+		return v[0]
+	}
+}
+OBS f([4, 5])
+"""),
+    ("return-only-under-literal-false", "reject", """
+f = fn(v: int) -> int {
+	if false {
+		return v
+	}
+}
+OBS f(4)
+"""),
+    ("return-only-under-constant-true-condition-is-still-conditional", "reject", """
+f = fn(v: int) -> str {
+	if true {
+		return "t"
+	}
+}
+OBS f(4)
+"""),
+    ("return-only-in-else-of-constant-condition", "reject", """
+f = fn(v: int) -> int {
+	if true {
+		print "t"
+	} else {
+		return v
+	}
+}
+OBS f(4)
+"""),
+    ("return-only-in-while-false", "reject", """
+f = fn(v: int) -> int {
+	while false {
+		return v
+	}
+}
+OBS f(4)
+"""),
+    # ---- the list methods that need ONE element type are not offered on a fixed-shape list (seed C02-1)
+    ("mixed-list-remove", "reject", """
+const row = [10, 20, "total"]
+last = row.remove(2)
+OBS last
+"""),
+    ("mixed-list-reverse-then-index", "reject", """
+const row = [10, "mid", 30]
+row.reverse()
+OBS row[0]
+"""),
+    ("mixed-list-map", "reject", """
+const row = [1, "a"]
+r = row.map(fn(x: int) -> int { return x + 1 })
+OBS r
+"""),
+    ("mixed-list-of-equal-kinds-is-open", "accept", """
+const row = [10, 20, 30]
+last = row.remove(2)
+OBS last
+"""),
     # ---- all-paths-return analysis (function.rs / if_statement.rs / scope.rs)
     ("if-returns-else-does-not", "reject", """
 f = fn(x: int) -> int {
